@@ -1657,6 +1657,45 @@ fn distinct_reasons(s: &mut [Step], base: u32) {
     }
 }
 
+/// F-C14c: with `connect_timeout` the timeout connector stands in front of tonic's own connector;
+/// its timeout must reach the caller as a connect error (UNAVAILABLE), lazily and eagerly.
+fn connect_timeout_cases(out: &mut Out) {
+    use std::time::Duration;
+    for (lazy, ms) in [(true, 5u64), (true, 250), (false, 5), (false, 250)] {
+        let rt = tokio::runtime::Builder::new_current_thread().enable_all().start_paused(true).build().unwrap();
+        let codes: Vec<u32> = rt.block_on(async move {
+            let never = || tower::service_fn(|_: http::Uri| async move {
+                std::future::pending::<()>().await;
+                Err::<hyper_util::rt::TokioIo<tokio::io::DuplexStream>, std::io::Error>(std::io::Error::other("never"))
+            });
+            let ep = tonic::transport::Endpoint::from_static("http://127.0.0.1:1").connect_timeout(Duration::from_millis(ms));
+            let mut codes = vec![];
+            if lazy {
+                let ch = ep.connect_with_connector_lazy(never());
+                let mut c = tonic_health::pb::health_client::HealthClient::new(ch);
+                for _ in 0..2 {
+                    let r = tokio::time::timeout(Duration::from_secs(3600), c.check(tonic_health::pb::HealthCheckRequest { service: String::new() })).await;
+                    codes.push(match r { Err(_) => 1000, Ok(Ok(_)) => 0, Ok(Err(s)) => s.code() as i32 as u32 });
+                }
+            } else {
+                let r = tokio::time::timeout(Duration::from_secs(3600), ep.connect_with_connector(never())).await;
+                codes.push(match r { Err(_) => 1000, Ok(Ok(_)) => 0, Ok(Err(e)) => tonic::Status::from_error(Box::new(e)).code() as i32 as u32 });
+            }
+            codes
+        });
+        let want: Vec<u32> = codes.iter().map(|_| 14).collect();
+        let orc = if codes == want { None } else { Some(format!("connect attempt ended by connect_timeout({} ms): codes {:?}, every one must be UNAVAILABLE (14; 1000 = hang)", ms, codes)) };
+        out.push(Case {
+            kind: "corpus.F-C14c.connect_timeout".to_string(),
+            input: json!({"lazy": lazy, "connect_timeout_ms": ms, "connector": "never answers", "impl": {"codes": codes}}),
+            model: format!("Nd [{}]", want.iter().map(|c| format!("Nn {}", c)).collect::<Vec<_>>().join(";")),
+            impl_obs: Tr::L(codes.iter().map(|c| Tr::n(*c)).collect()),
+            oracle: orc,
+            nontrivial: true,
+        });
+    }
+}
+
 fn main() {
     let a = args();
     std::panic::set_hook(Box::new(|_| {
@@ -2031,9 +2070,11 @@ fn main() {
         push_case(&mut out, "history.random_handshake", r.chance(1, 2), r.below(3) as u32, n0, &h);
     }
 
+    connect_timeout_cases(&mut out);
+
     out.finish(
         IMPORTS,
-        "script.exhaustive: ALL scripts over {connect fails, connect succeeds, connection dropped} up to length 6 (thorough 8) x lazy/eager, a unary call at the quiescent point after every event (and optionally before the first), initial reachability and connector latency (0..2 Pending polls) varied; concurrent.k: ALL such scripts up to length 4 (thorough 6) with 2..4 calls issued TOGETHER (queued in the tower Buffer) after every event; history.random: random histories with calls and batches of 0..4 at arbitrary positions; tcp.loopback: real Endpoint::connect()/connect_lazy() (hyper-util HttpConnector, real clock) against 127.0.0.1 peers {nothing listening, accepts and closes, accepts and answers HTTP/1.1, real tonic server shut down and restarted on the same port}, codes compared with the model (nothing listening = refusal, strictly UNAVAILABLE; accept-and-close/garbage = established connection dying with the request in flight, CANCELLED or UNAVAILABLE accepted; healthy = response, also after restart); balance.list1 / balance.list2 / balance.channel: real Channel::balance_list (1 and 2 endpoints) and Channel::balance_channel (endpoints inserted/removed through the Sender) over 127.0.0.1 (tower p2c Balance polls Reconnect::poll_ready again right before every dispatch; peers: nothing listening on a reserved port = refused after a Pending connect, healthy tonic server, started/stopped on the same port; real clock, 12 s bound per call): list1 = ALL scripts over {server starts, server goes away} up to length 3 (thorough 5) x initially up/down, 1..2 calls after every event, codes compared with the model's balanced driver (exact); list2 = all scripts over the two endpoints' events of length 0 and 2 (thorough 0..3) + a long one, channel = hand-written and random insert/remove/up/down scripts (model: calls while no endpoint of the set is reachable); oracle: every call completes within the bound with a response or UNAVAILABLE, no response while no endpoint is reachable, a failure while every endpoint is reachable only for a failure still outstanding from an earlier call (never with one endpoint: the first call after the endpoint is back succeeds), each reported once; observe.connector_not_ready: connector whose poll_ready errs after g cycles (outside the property: tower's contract makes the Buffer worker fail for good; model exact, oracle only definite/no panic/no hang); script.error_kinds: every shape of the error beneath the ConnectError (the reason selects it: 20 std::io::ErrorKinds, a custom error type, a boxed String, wrapped 0..2 levels deep) for refusals of the connector and for failures of the HTTP/2 handshake on a scripted io, lazy and eager - strictly UNAVAILABLE; all other kinds draw their reasons from the same space; script.handshake / history.random_handshake: the alphabet widened by {transport connects but the peer closes at once (handshake fails; strictly UNAVAILABLE, fixed finding F-C14a), transport connects but the peer is not HTTP/2 (established connection dies under the request, CANCELLED or UNAVAILABLE accepted as for racy drops)}; corpus.racy: calls issued before the client noticed the drop (outside the property's quantifier, behaviour recorded and modelled). The scripted connector enforces the tower Service protocol (its poll_ready answers Pending 0..2 times per cycle; a call without a Ready poll_ready is recorded / panics / runs under a real tower::limit::ConcurrencyLimit, rotating per case; corpus.protocol = drop-and-reconnect sequences in every mode). Real Endpoint::connect_with_connector[_lazy] + Buffer worker + Reconnect + hyper h2 client against a real tonic Server over tokio duplex pipes, paused clock. Non-trivial = at least one call and two steps. Distinct = distinct (kind, model expression).",
+        "corpus.F-C14c.connect_timeout: Endpoint::connect_timeout set (virtual time) with a connector that never answers, connect_with_connector_lazy (two calls) and connect_with_connector (eager): the attempt can only end by the timeout, which must be an UNAVAILABLE-class connect error (fix fbf82474). script.exhaustive: ALL scripts over {connect fails, connect succeeds, connection dropped} up to length 6 (thorough 8) x lazy/eager, a unary call at the quiescent point after every event (and optionally before the first), initial reachability and connector latency (0..2 Pending polls) varied; concurrent.k: ALL such scripts up to length 4 (thorough 6) with 2..4 calls issued TOGETHER (queued in the tower Buffer) after every event; history.random: random histories with calls and batches of 0..4 at arbitrary positions; tcp.loopback: real Endpoint::connect()/connect_lazy() (hyper-util HttpConnector, real clock) against 127.0.0.1 peers {nothing listening, accepts and closes, accepts and answers HTTP/1.1, real tonic server shut down and restarted on the same port}, codes compared with the model (nothing listening = refusal, strictly UNAVAILABLE; accept-and-close/garbage = established connection dying with the request in flight, CANCELLED or UNAVAILABLE accepted; healthy = response, also after restart); balance.list1 / balance.list2 / balance.channel: real Channel::balance_list (1 and 2 endpoints) and Channel::balance_channel (endpoints inserted/removed through the Sender) over 127.0.0.1 (tower p2c Balance polls Reconnect::poll_ready again right before every dispatch; peers: nothing listening on a reserved port = refused after a Pending connect, healthy tonic server, started/stopped on the same port; real clock, 12 s bound per call): list1 = ALL scripts over {server starts, server goes away} up to length 3 (thorough 5) x initially up/down, 1..2 calls after every event, codes compared with the model's balanced driver (exact); list2 = all scripts over the two endpoints' events of length 0 and 2 (thorough 0..3) + a long one, channel = hand-written and random insert/remove/up/down scripts (model: calls while no endpoint of the set is reachable); oracle: every call completes within the bound with a response or UNAVAILABLE, no response while no endpoint is reachable, a failure while every endpoint is reachable only for a failure still outstanding from an earlier call (never with one endpoint: the first call after the endpoint is back succeeds), each reported once; observe.connector_not_ready: connector whose poll_ready errs after g cycles (outside the property: tower's contract makes the Buffer worker fail for good; model exact, oracle only definite/no panic/no hang); script.error_kinds: every shape of the error beneath the ConnectError (the reason selects it: 20 std::io::ErrorKinds, a custom error type, a boxed String, wrapped 0..2 levels deep) for refusals of the connector and for failures of the HTTP/2 handshake on a scripted io, lazy and eager - strictly UNAVAILABLE; all other kinds draw their reasons from the same space; script.handshake / history.random_handshake: the alphabet widened by {transport connects but the peer closes at once (handshake fails; strictly UNAVAILABLE, fixed finding F-C14a), transport connects but the peer is not HTTP/2 (established connection dies under the request, CANCELLED or UNAVAILABLE accepted as for racy drops)}; corpus.racy: calls issued before the client noticed the drop (outside the property's quantifier, behaviour recorded and modelled). The scripted connector enforces the tower Service protocol (its poll_ready answers Pending 0..2 times per cycle; a call without a Ready poll_ready is recorded / panics / runs under a real tower::limit::ConcurrencyLimit, rotating per case; corpus.protocol = drop-and-reconnect sequences in every mode). Real Endpoint::connect_with_connector[_lazy] + Buffer worker + Reconnect + hyper h2 client against a real tonic Server over tokio duplex pipes, paused clock. Non-trivial = at least one call and two steps. Distinct = distinct (kind, model expression).",
         json!({}),
     );
 }
